@@ -102,7 +102,22 @@ func resOfTok(r string) string {
 			return longName(int(n))
 		}
 	}
+	if strings.HasPrefix(r, "H") && r[1:] == strings.ToLower(r[1:]) {
+		if bs, err := hex.DecodeString(r[1:]); err == nil {
+			return string(bs) // H<hex>: names that cannot stand literally in an op line
+		}
+	}
 	return r
+}
+
+func safeName(r string) bool {
+	for i := 0; i < len(r); i++ {
+		b := r[i]
+		if b < 33 || b == 127 || b == ':' || b == ',' || b == '[' || b == ']' {
+			return false
+		}
+	}
+	return true
 }
 
 // showRes prints long names as R<n> (if it is that name) or X<len>:<hash>.
@@ -116,6 +131,9 @@ func showRes(r string) string {
 			h = (h*31 + uint64(r[i])) % 4294967296
 		}
 		return fmt.Sprintf("X%d:%d", len(r), h)
+	}
+	if r != "" && !safeName(r) {
+		return "H" + hex.EncodeToString([]byte(r))
 	}
 	return r
 }
